@@ -281,6 +281,9 @@ func checkC05(c *Ctx) {
 			}
 		}
 	}
+	for _, d := range overfullLastBufferDocs() {
+		run("overfull-last-index-buffer", d, false)
+	}
 	for _, d := range denseThenTail(r) {
 		run("dense-then-tail", d, false)
 		run("dense-then-tail-nd", d, true)
